@@ -284,6 +284,12 @@ Theorem float_roundtrip : forall d m e t, emit_float_rust m e = Some t ->
 Proof. intros d m e t H. split; [exact (emit_float_rust_value m e t H) | exact (emit_float_rust_one_token d m e t H)]. Qed.
 Print Assumptions float_roundtrip.
 
+(* since fix d8fda67 the lexer itself rejects such a spelling, so every float literal it lets through is emitted *)
+Theorem float_literal_accepted_is_emitted : forall s m e r,
+  lex_literal_checked iunits tbl rows s = Some (LFloat m e, r) -> exists t, emit_float_rust m e = Some t.
+Proof. exact (lexed_float_emitted iunits tbl rows). Qed.
+Print Assumptions float_literal_accepted_is_emitted.
+
 (* the rejected spellings are exactly those whose value is at least 2^1024 - 2^970 (half an ulp above f64::MAX) *)
 Theorem float_rejected_iff_overflow : forall m e, emit_float_rust m e = None <-> overflows m e = true.
 Proof. intros m e. unfold emit_float_rust. destruct (overflows m e); split; congruence. Qed.
@@ -315,19 +321,13 @@ Proof.
 Qed.
 Print Assumptions interval_unit_always_supported.
 
-(* the count.  FULL STATEMENT (false, finding C08-N1-interval-count-overflow):
-     lex_interval iunits (ds ++ u) = Some (LInterval n u, r) -> n = the decimal value of ds.
-   A count beyond i64::MAX is not an error: number_str.parse::<i64>().unwrap_or(1) reads it as 1 *)
-Theorem interval_count_refuted :
-  exists ds u, lex_interval iunits (ds ++ u) = Some (LInterval 1 u, []) /\ base_value 10 ds = 9223372036854775808.
-Proof. exists [57;50;50;51;51;55;50;48;51;54;56;53;52;55;55;53;56;48;56], [100;97;121;115]. vm_compute. split; reflexivity. Qed.
-Print Assumptions interval_count_refuted.
-
-Theorem interval_count_partial : forall s n u r, lex_interval iunits s = Some (LInterval n u, r) ->
+(* the count: FULL STRENGTH since fix 8948ad3 (interval_count_refuted / _partial described finding C08-N1: a count beyond
+   i64::MAX was read as 1): an accepted interval literal has exactly the count its digits spell, and it fits i64 *)
+Theorem interval_count : forall s n u r, lex_interval iunits s = Some (LInterval n u, r) ->
   exists ip r1, parse_integer s = Some (ip, r1) /\ match_unit iunits r1 = Some (u, r) /\
-                (base_value 10 (no_us ip) <= I64_MAX -> n = base_value 10 (no_us ip)).
+                n = base_value 10 (no_us ip) /\ n <= I64_MAX.
 Proof. exact (lex_interval_count iunits). Qed.
-Print Assumptions interval_count_partial.
+Print Assumptions interval_count.
 
 (* based literals 0x / 0o / 0b: the integer the lexer produces is the value of the digits it consumed, it fits i64 (the
    unwrap_or(Integer(0)) fallback is dead), and the literal stops in front of another digit of the base only after the
@@ -430,7 +430,8 @@ Proof. vm_compute. repeat split; reflexivity. Qed.
 Example c08_ex_interval :
   interval_text ifields (IValueAndUnitQuoted, IValueQuoted) (digits_of 3) [109;111;110;116;104;115] = Some [73;78;84;69;82;86;65;76;32;39;51;39;32;77;79;78;84;72]   (* redshift: INTERVAL '3' MONTH *)
   /\ interval_text ifields (IValueAndUnitQuoted, IValueQuoted) (digits_of 3) [119;101;101;107;115] = Some [73;78;84;69;82;86;65;76;32;39;51;32;87;69;69;75;39]   (* INTERVAL '3 WEEK' *)
-  /\ lex_interval iunits [49;95;48;100;97;121;115;32] = Some (LInterval 10 [100;97;121;115], [32]).                                                        (* 1_0days *)
+  /\ lex_interval iunits [49;95;48;100;97;121;115;32] = Some (LInterval 10 [100;97;121;115], [32])                                                         (* 1_0days *)
+  /\ lex_interval iunits [57;50;50;51;51;55;50;48;51;54;56;53;52;55;55;53;56;48;56;100;97;121;115] = None.                                                 (* 9223372036854775808days: rejected *)
 Proof. vm_compute. repeat split; reflexivity. Qed.
 Example c08_ex_float_shortest :
   emit_float_ryu 30000000000000004 (-17) = Some [48;46;51;48;48;48;48;48;48;48;48;48;48;48;48;48;48;48;52]            (* 0.30000000000000004 *)
